@@ -2,7 +2,7 @@
 
 A real directory tree with canary files outside every root (parent directory, prefix-sharing sibling,
 absolute path, a sibling of the PICO-8 carts root sharing its prefix); every path string of <= N atoms
-over {x, lib, ., .., /, sub/, ../, foobar/, ?, ;, <abs>, carts2/, ~, ~/, carts/, byte 0xff raw and as \\255} x load-path settings x cart locations,
+over {x, lib, ., .., /, sub/, ../, foobar/, ?, ;, <abs>, carts2/, ~, ~/, carts/, byte 0xff raw and as \\255; in strings of <= 3 atoms also ../FOO/, ../LIBS/, <abs CARTS>, ../CARTS2/ - siblings that differ from a root only in letter case} x load-path settings x cart locations,
 driven through the public entries (`p8tool build --lua main.lua`, `file.from_file(cart.p8)`) with
 builtins.open / io.open wrapped in-process.  Every opened path inside the sandbox must lie under a
 permitted root, else the load must have failed before opening.
@@ -30,7 +30,10 @@ ASSUMPTIONS = ['only opens of paths inside the sandbox tree are judged (the inte
 BOUNDS = {'quick': {'atoms': 3}, 'thorough': {'atoms': 5}}
 
 ATOMS = ['x', 'lib', '.', '..', '/', 'sub/', '../', 'foobar/', '?', ';', '<abs>', 'carts2/', '~', '~/', 'carts/', '\xff', '\\255']
-INCLUDE_ONLY = ('carts2/', 'carts/')
+# directories whose names differ from a permitted root only in letter case (a case-insensitive containment test lets them
+# in): used in strings of <= 3 atoms in both tiers
+CASE_ATOMS = ['../FOO/', '../LIBS/', '<ABS-CARTS>', '../CARTS2/']
+INCLUDE_ONLY = ('carts2/', 'carts/', '<ABS-CARTS>', '../CARTS2/')
 REQUIRE_ONLY = ('\xff', '\\255')     # a byte that is not UTF-8, raw and as a Lua escape
 
 
@@ -47,13 +50,18 @@ class Sandbox(object):
         for d in (self.proj, os.path.join(self.proj, 'lib'), os.path.join(self.proj, 'sub'), os.path.join(self.proj, 'x'),
                   os.path.join(r, 'foobar'), self.libs, self.abs, os.path.join(self.carts, 'game'),
                   os.path.join(self.carts, 'shared'), self.carts2, os.path.join(self.carts2, 'game'),
-                  os.path.join(r, 'x'), os.path.join(r, 'lib')):
+                  os.path.join(r, 'x'), os.path.join(r, 'lib'), os.path.join(r, 'FOO'), os.path.join(r, 'LIBS'),
+                  os.path.join(self.home, '.lexaloffle', 'pico-8', 'CARTS'),
+                  os.path.join(self.home, '.lexaloffle', 'pico-8', 'CARTS2')):
             os.makedirs(d, exist_ok=True)
         body = b'v=1\n'
         inside = ['foo/x.lua', 'foo/lib/x.lua', 'foo/lib/init.lua', 'foo/sub/x.lua', 'foo/sub/lib.lua', 'foo/x/init.lua', 'foo/lib.lua',
                   'libs/x.lua', 'libs/lib.lua']
         canaries = ['x.lua', 'init.lua', 'lib.lua', 'x/init.lua', 'lib/init.lua', 'lib/x.lua', 'foobar/x.lua',
-                    'foobar/init.lua', 'foobar/lib.lua', 'abs/x.lua', 'abs/init.lua', 'x']
+                    'foobar/init.lua', 'foobar/lib.lua', 'abs/x.lua', 'abs/init.lua', 'x',
+                    'FOO/x.lua', 'FOO/lib.lua', 'FOO/init.lua', 'FOO/x', 'LIBS/x.lua', 'LIBS/lib.lua',
+                    'home/.lexaloffle/pico-8/CARTS/x.lua', 'home/.lexaloffle/pico-8/CARTS/lib.lua',
+                    'home/.lexaloffle/pico-8/CARTS2/x.lua', 'home/.lexaloffle/pico-8/CARTS2/lib.lua']
         for f in inside + canaries:
             p = os.path.join(r, f)
             if not os.path.isdir(p):
@@ -74,6 +82,8 @@ class Sandbox(object):
         shutil.rmtree(self.root, ignore_errors=True)
 
     def atom(self, a):
+        if a == '<ABS-CARTS>':
+            return os.path.join(self.home, '.lexaloffle', 'pico-8', 'CARTS') + '/'
         return self.abs + '/' if a == '<abs>' else a
 
 
@@ -116,6 +126,8 @@ def under(path, root):
 
 def location_class(sb, rp):
     rel = os.path.relpath(rp, sb.root)
+    if any(part in ('FOO', 'LIBS', 'CARTS', 'CARTS2') for part in rel.split(os.sep)):
+        return 'root-name-in-other-letter-case'
     if rel.startswith('foobar' + os.sep):
         return 'prefix-sharing-sibling'
     if rel.startswith('abs' + os.sep):
@@ -176,7 +188,7 @@ def check_require(sb, p, lp, res, form='paren'):
         os.environ['PICO8_LUA_PATH'] = sb.libs + '/?.lua;?;?.lua'
         allowed.append(sb.libs)
     case = {'kind': 'require', 'p': p.replace(sb.root, '<SB>'), 'loadpath': lp, 'form': form}
-    if any(t in p for t in ('..', 'foobar', sb.abs, '~')) or p.startswith('/'):
+    if any(t in p for t in ('..', 'foobar', sb.abs, '~', 'FOO', 'LIBS')) or p.startswith('/'):
         res.nontriv(('require', p, lp))
     home_old = os.environ.get('HOME')
     os.environ['HOME'] = sb.home
@@ -279,7 +291,7 @@ def check_include(sb, p, loc, res):
     open(cart, 'wb').write(b'pico-8 cartridge // http://www.pico-8.com\nversion 33\n__lua__\n#include ' + p.encode() +
                            b'.lua\n')
     case = {'kind': 'include', 'p': p.replace(sb.root, '<SB>'), 'loc': loc}
-    if any(t in p for t in ('..', 'foobar', 'carts', sb.abs)) or p.startswith('/'):
+    if any(t in p for t in ('..', 'foobar', 'carts', sb.abs, 'FOO', 'CARTS')) or p.startswith('/'):
         res.nontriv(('include', p, loc))
     home_old = os.environ.get('HOME')
     os.environ['HOME'] = sb.home
@@ -313,6 +325,12 @@ def strings(tier, sb):
     for k in range(0, n + 1):
         for combo in itertools.product(ATOMS, repeat=k):
             yield ''.join(sb.atom(a) for a in combo), combo
+    # strings of <= 3 atoms that hold at least one case-variant atom
+    allk = ATOMS + CASE_ATOMS
+    for k in range(1, 4):
+        for combo in itertools.product(allk, repeat=k):
+            if any(a in CASE_ATOMS for a in combo):
+                yield ''.join(sb.atom(a) for a in combo), combo
 
 
 def shards(tier, seed):
